@@ -438,6 +438,31 @@ pub fn threads() -> usize {
 
 /// Run `prop` on a case, converting an unexpected harness panic into an infra error and a Physis panic
 /// (raised inside `panics::guard`) that was not turned into a Failure by the property into a failure.
+/// every 32nd case of a functional check runs on a thread of its own (see `run_case_fresh`)
+const FRESH_EVERY: u64 = 32;
+
+/// The isolation-worker checks (C17, C18) already run every call in another process.
+fn fresh_threads_apply(ctx: &Ctx) -> bool {
+    ctx.id != "C17" && ctx.id != "C18" && std::env::var("VERIF_NO_FRESH_THREADS").is_err()
+}
+
+/// Run a case on a newly spawned thread: the calls into Physis are then the first that thread ever makes, so a result that
+/// depends on per-thread state left behind by earlier calls (a cache, a memo, a scratch buffer) differs from the oracle's.
+pub fn run_case_fresh<C: Sync>(ctx: &Ctx, prop: fn(&C, &Ctx) -> PResult, c: &C) -> PResult {
+    let counting = counting();
+    let (r, detail) = std::thread::scope(|s| {
+        s.spawn(move || {
+            COUNTING.with(|x| x.set(counting));
+            let r = run_case(ctx, prop, c);
+            (r, CASE_DETAIL.with(|d| d.borrow_mut().take()))
+        })
+        .join()
+        .unwrap_or_else(|_| (Err(Failure { slug: "harness-panic".into(), msg: "the thread running the case panicked".into() }), None))
+    });
+    CASE_DETAIL.with(|d| *d.borrow_mut() = detail);
+    r
+}
+
 pub fn run_case<C>(ctx: &Ctx, prop: fn(&C, &Ctx) -> PResult, c: &C) -> PResult {
     CASE_DETAIL.with(|c| *c.borrow_mut() = None);
     let r = std::panic::catch_unwind(std::panic::AssertUnwindSafe(|| prop(c, ctx)));
@@ -461,7 +486,12 @@ where
     fn replay(&self, ctx: &Ctx, case: &Value) -> Result<PResult, String> {
         let c: C = serde_json::from_value(case.clone()).map_err(|e| format!("cannot decode case for part {}: {}", self.name, e))?;
         ctx.eval();
-        Ok(run_case(ctx, self.prop, &c))
+        let r = run_case(ctx, self.prop, &c);
+        if r.is_ok() && fresh_threads_apply(ctx) {
+            // a replayed case is run both ways: on this thread and as the first work of a new one
+            return Ok(run_case_fresh(ctx, self.prop, &c));
+        }
+        Ok(r)
     }
 
     fn run(&self, ctx: &Ctx) {
@@ -481,7 +511,11 @@ where
                             }
                             ctx.eval();
                             journal(ctx.id, self.name, &cases[i]);
-                            if let Err(f) = run_case(ctx, self.prop, &cases[i]) {
+                            let fresh = fresh_threads_apply(ctx) && i as u64 % FRESH_EVERY == FRESH_EVERY - 1;
+                            if fresh {
+                                ctx.class("engine:case-run-on-a-fresh-thread");
+                            }
+                            if let Err(f) = if fresh { run_case_fresh(ctx, self.prop, &cases[i]) } else { run_case(ctx, self.prop, &cases[i]) } {
                                 if f.slug == "harness-panic" {
                                     ctx.infra(&f.msg);
                                 }
@@ -524,10 +558,33 @@ where
                             };
                             let mut runner = TestRunner::new(cfg);
                             let strat = mk(ctx);
+                            // every 32nd case of the shard runs on a fresh thread; once a case has failed, its re-runs
+                            // (shrinking, the final report) keep the mode the failure was found in
+                            let apply = fresh_threads_apply(ctx);
+                            let case_no = Cell::new(0u64);
+                            let failed_mode: Cell<Option<bool>> = Cell::new(None);
+                            let run = |c: &C| -> PResult {
+                                let fresh = match failed_mode.get() {
+                                    Some(m) => m,
+                                    None => {
+                                        let k = case_no.get();
+                                        case_no.set(k + 1);
+                                        apply && k % FRESH_EVERY == FRESH_EVERY - 1
+                                    }
+                                };
+                                if fresh && failed_mode.get().is_none() {
+                                    ctx.class("engine:case-run-on-a-fresh-thread");
+                                }
+                                let r = if fresh { run_case_fresh(ctx, self.prop, c) } else { run_case(ctx, self.prop, c) };
+                                if r.is_err() && failed_mode.get().is_none() {
+                                    failed_mode.set(Some(fresh));
+                                }
+                                r
+                            };
                             let r = runner.run(&strat, |c| {
                                 ctx.eval();
                                 journal(ctx.id, self.name, &c);
-                                match run_case(ctx, self.prop, &c) {
+                                match run(&c) {
                                     Ok(()) => Ok(()),
                                     Err(f) => {
                                         // everything after the first failure is shrinking: stop counting
@@ -541,7 +598,7 @@ where
                                 Ok(()) => {}
                                 Err(TestError::Fail(_, minimal)) => {
                                     COUNTING.with(|c| c.set(false));
-                                    let res = run_case(ctx, self.prop, &minimal);
+                                    let res = run(&minimal);
                                     COUNTING.with(|c| c.set(true));
                                     match res {
                                         Err(f) => {
